@@ -1,5 +1,7 @@
 import ZapVerif.Model.Deliver
 import ZapVerif.Proofs.EntryWF
+import ZapVerif.Proofs.TransCE
+import ZapVerif.Proofs.TransCores
 /-! # C10 — field and sink failures are contained and reported; the entry is never lost -/
 namespace ZapVerif.C10
 open ZapVerif ZapVerif.Esc ZapVerif.Json ZapVerif.Enc ZapVerif.Entry ZapVerif.Deliver
@@ -90,5 +92,447 @@ theorem errors_all_reported (c : Core) :
 /-- non-vacuity: a tee whose first branch fails still delivers to the second and reports the failure -/
 example : logOnce (.tee [.io true [⟨0, true, false⟩], .io false [⟨1, false, false⟩], .wrap (.tee [.io true [⟨2, false, false⟩, ⟨3, true, false⟩]])]) =
     ⟨[0, 2, 3], [0, 3], 1⟩ := by decide
+
+end ZapVerif.C10
+
+/-! ## `CheckedEntry.Write` IS the source (Go→GoMini translation, docs/TRANSLATOR.md)
+
+`Gen/TransCE.lean` holds the body of `(*CheckedEntry).Write` as read from zapcore/entry.go on this run.  Every call it
+makes to the outside is a recorded intrinsic; the theorem gives the exact trace for EVERY list of cores and every
+combination of write outcomes: each core written once, in order, whatever the earlier ones returned; one
+`Fprintf` + `Sync` on the ErrorOutput iff some write failed (and an ErrorOutput is set), carrying ALL errors in order;
+then the hook, unconditionally, if one is set; then the pool put — in this order. -/
+namespace ZapVerif.C10
+set_option linter.unusedSimpArgs false
+open ZapVerif ZapVerif.Deliver ZapVerif.GoMini ZapVerif.TransCE ZapVerif.Gen.TransCE
+
+/-- loop variables of the core loop after an iteration (absent before the first) -/
+def ceTail : Option (Int × List Val) → Env
+  | none => []
+  | some (i, e) => [("l1", .int i), ("l2", .list e)]
+
+/-- state at the head of the core loop: errors so far, trace so far -/
+def ceAbs (eo after : List Val) (cores : List Val) (time entry self fs : Val)
+    (a : (List Val × List Val) × Option (Int × List Val)) : State :=
+  ⟨[("p0", fs), ("l0", .list a.1.1)] ++ ceTail a.2, ceFld false true eo after cores time entry self a.1.2⟩
+
+def ceStep (entry fs : Val) (a : (List Val × List Val) × Option (Int × List Val)) (i : Nat) (c : Nat × List Val) :
+    (List Val × List Val) × Option (Int × List Val) :=
+  ((a.1.1 ++ c.2, a.1.2 ++ [evCore (coreOf c) entry fs]), some ((i : Int), c.2))
+
+theorem ceStep_fold (entry fs : Val) : ∀ (l : List ((Nat × List Val) × Nat)) (a : (List Val × List Val) × Option (Int × List Val)),
+    (l.foldl (fun a q => ceStep entry fs a q.2 q.1) a).1 =
+      (a.1.1 ++ l.flatMap (·.1.2), a.1.2 ++ l.map (fun q => evCore (coreOf q.1) entry fs))
+  | [], a => by simp
+  | q :: l, a => by
+    simp only [List.foldl_cons]
+    rw [ceStep_fold entry fs l]
+    simp [ceStep, List.append_assoc]
+
+/-- the core loop of `CheckedEntry.Write`: every core is written, in order, with the entry and the fields; the
+    errors are only collected -/
+theorem CheckedEntry_Write_loop_matches_source (cs : List (Nat × List Val)) (eo after : List Val)
+    (time entry self fs : Val) (ev : List Val) (rec : Stmt → State → GoMini.Out) :
+    ∃ t, execS X rec Write_loop0
+        (ceAbs eo after (cs.map coreOf) time entry self fs (([], ev), none)) =
+      .normal (ceAbs eo after (cs.map coreOf) time entry self fs
+        ((cs.flatMap (·.2), ev ++ cs.map fun c => evCore (coreOf c) entry fs), t)) := by
+  have hiter : ∀ (a : (List Val × List Val) × Option (Int × List Val)) (i : Nat) (c : Nat × List Val),
+      cs[i]? = some c →
+      (match Write_loop0 with
+        | .range k v _ body => execS X rec body
+            (((ceAbs eo after (cs.map coreOf) time entry self fs a).assign1 k (.int i)).assign1 v (coreOf c))
+        | _ => .oof) = .normal (ceAbs eo after (cs.map coreOf) time entry self fs (ceStep entry fs a i c)) := by
+    intro ⟨⟨acc, tr⟩, t⟩ i c hc
+    have hidx := indexVal_list_map coreOf cs i c hc
+    cases t <;> simp [Write_loop0, ceAbs, ceTail, ceStep, hidx, evCore, nm_coreWrite]
+  unfold Write_loop0 at hiter ⊢
+  rw [execS_range]
+  have hfold := rangeRun_fold_at (execS X rec _) _ _
+    (ceAbs eo after (cs.map coreOf) time entry self fs) coreOf
+    (ceStep entry fs) cs hiter cs 0 (([], ev), none) (by simp)
+  refine ⟨((cs.zipIdx).foldl (fun a q => ceStep entry fs a q.2 q.1) (([], ev), none)).2, ?_⟩
+  have hcs : evalE X (ceAbs eo after (cs.map coreOf) time entry self fs (([], ev), none)) (.fld "cores") =
+      .ok (.list (cs.map coreOf)) := by simp [ceAbs]
+  rw [hcs]
+  simp only [Res.out_ok]
+  refine Eq.trans hfold ?_
+  congr 2
+  refine Prod.ext ?_ rfl
+  rw [ceStep_fold, zipIdx_flatMap_fst (fun c : Nat × List Val => c.2), zipIdx_map_fst (fun c => evCore (coreOf c) entry fs)]
+  simp
+
+/-- `(*CheckedEntry).Write(fields…)` on a fresh (non-nil, not dirty) entry, for EVERY list of cores and write outcomes:
+    the entry is marked dirty and the calls made are exactly `TransCE.expected` — all cores in order, the error line
+    (+ Sync) iff some write failed and an ErrorOutput is set, with every error in order, then the hook if set
+    (whatever the writes returned), then the pool put last -/
+theorem CheckedEntry_Write_matches_source (cs : List (Nat × List Val)) (eo after : List Val)
+    (time entry self fs : Val) (ev : List Val) (fuel : Nat) :
+    run X (fuel + 1) "Write" [fs] (ceFld false false eo after (cs.map coreOf) time entry self ev) =
+      .done [] (ceFld false true eo after (cs.map coreOf) time entry self
+        (ev ++ expected cs eo after time entry self fs)) := by
+  refine run_of_fin X _ _ Gen.TransCE.Write [fs] _ _ _ rfl rfl ?_
+  show (exec X (fuel + 1) Write_body ⟨[("p0", fs)], _⟩).fin = _
+  rw [exec_succ]
+  obtain ⟨t, hl⟩ := CheckedEntry_Write_loop_matches_source cs eo after time entry self fs ev (exec X fuel)
+  simp only [ceAbs, ceTail, List.append_nil] at hl
+  have hpos : ∀ n : Nat, ¬ ((n : Int) + 1 = 0) := by intro n; omega
+  simp only [expected]
+  generalize cs.flatMap (fun x => x.2) = E at hl ⊢
+  cases E <;> cases eo <;> cases after <;> cases t <;>
+    simp [Write_body, hl, ceTail, evErrLine, evErrSync, evHook, evPut, nm_fprintf, nm_sync, nm_hook, nm_put,
+      nm_errfmt, List.append_assoc, hpos]
+
+/-- a nil `*CheckedEntry`: `Write` does nothing at all -/
+theorem CheckedEntry_Write_nil_matches_source (dirty : Bool) (eo after cores : List Val) (time entry self fs : Val)
+    (ev : List Val) (fuel : Nat) :
+    run X (fuel + 1) "Write" [fs] (ceFld true dirty eo after cores time entry self ev) =
+      .done [] (ceFld true dirty eo after cores time entry self ev) := by
+  refine run_of_fin X _ _ Gen.TransCE.Write [fs] _ _ _ rfl rfl ?_
+  show (exec X (fuel + 1) Write_body ⟨[("p0", fs)], _⟩).fin = _
+  rw [exec_succ]
+  simp [Write_body]
+
+/-- a dirty entry (re-used after it went back to the pool): no core is written, no hook runs, nothing is put back;
+    only the re-use report goes to the ErrorOutput, if there is one -/
+theorem CheckedEntry_Write_dirty_matches_source (eo after cores : List Val) (time entry self fs : Val)
+    (ev : List Val) (fuel : Nat) :
+    run X (fuel + 1) "Write" [fs] (ceFld false true eo after cores time entry self ev) =
+      .done [] (ceFld false true eo after cores time entry self
+        (ev ++ if eo = [] then [] else [evReuse eo time entry, evErrSync eo])) := by
+  refine run_of_fin X _ _ Gen.TransCE.Write [fs] _ _ _ rfl rfl ?_
+  show (exec X (fuel + 1) Write_body ⟨[("p0", fs)], _⟩).fin = _
+  rw [exec_succ]
+  have hpos : ∀ n : Nat, ¬ ((n : Int) + 1 = 0) := by intro n; omega
+  cases eo <;> simp [Write_body, evReuse, evErrSync, nm_fprintf, nm_sync, nm_reusefmt, hpos]
+
+/-! ### reading the trace as `Deliver.ceWrite`
+
+`Deliver.ceWrite c after` describes a log call at the level of SINKS: the cores of the checked entry are `accepted c`,
+and a core's `Write` reaches `sinksOf core` and fails iff one of them fails (what `ioCore.Write`, `multiCore.Write` and
+`multiWriteSyncer.Write` do — their own `…_matches_source` theorems).  Under that reading the recorded trace of
+`CheckedEntry.Write` is `Deliver.ceWrite`. -/
+
+/-- the core value for a `Deliver.Core`: position and the ids of its failing sinks -/
+def dcore (p : Deliver.Core × Nat) : Nat × List Val :=
+  (p.2, ((sinksOf p.1).filter (·.writeErr)).map fun s => Val.int s.id)
+
+/-- a recorded call as sink-level events: a `Core.Write` of the core at position `i` reaches that core's sinks, the
+    `Fprintf` on the ErrorOutput is the failure line, `hook.OnWrite` is the loss of control; `Sync` and the pool put
+    are not events of `Deliver` -/
+def readEv (cores : List Deliver.Core) : Val → List Deliver.DEv
+  | .list (.bytes n :: rest) =>
+    if n = [67, 111, 114, 101, 46, 87, 114, 105, 116, 101] then
+      (match rest with
+       | .list (.int i :: _) :: _ =>
+         (match cores[i.toNat]? with | some c => (sinksOf c).map fun s => Deliver.DEv.wrote s.id | none => [])
+       | _ => [])
+    else if n = [104, 111, 111, 107, 46, 79, 110, 87, 114, 105, 116, 101] then [Deliver.DEv.term]
+    else if n = [102, 109, 116, 46, 70, 112, 114, 105, 110, 116, 102] then [Deliver.DEv.errLine]
+    else []
+  | _ => []
+
+theorem readEv_cores (entry fs : Val) (pre : List Deliver.Core) :
+    ∀ (l : List Deliver.Core),
+      ((l.zipIdx pre.length).map fun p => evCore (coreOf (dcore p)) entry fs).flatMap (readEv (pre ++ l)) =
+        (l.flatMap sinksOf).map fun s => Deliver.DEv.wrote s.id
+  | [] => by simp
+  | c :: l => by
+    have ih := readEv_cores entry fs (pre ++ [c]) l
+    simp only [List.length_append, List.length_singleton, List.append_assoc, List.singleton_append] at ih
+    simp only [List.zipIdx_cons, List.map_cons, List.flatMap_cons, ih, List.map_append]
+    congr 1
+    simp [readEv, evCore, coreOf, coreV, dcore, nm_coreWrite]
+
+theorem dcore_errs (l : List Deliver.Core) (k : Nat) :
+    ((l.zipIdx k).map dcore).flatMap (·.2) = ((l.flatMap sinksOf).filter (·.writeErr)).map fun s => Val.int s.id := by
+  induction l generalizing k with
+  | nil => simp
+  | cons c l ih => simp [List.zipIdx_cons, dcore, ih]
+
+/-- the recorded trace of `CheckedEntry.Write`, read at sink level, is `Deliver.ceWrite` — the function
+    `ce_write_all_cores`, `errors_all_reported` and C06's `terminal_despite_sink_failures` are stated over -/
+theorem CheckedEntry_Write_is_ceWrite (c : Deliver.Core) (eo : Val) (after : List Val) (time entry self fs : Val) :
+    (expected ((accepted c).zipIdx.map dcore) [eo] after time entry self fs).flatMap (readEv (accepted c)) =
+      Deliver.ceWrite c (decide (after ≠ [])) := by
+  have h1 := readEv_cores entry fs [] (accepted c)
+  simp only [List.length_nil, List.nil_append] at h1
+  have h2 := dcore_errs (accepted c) 0
+  simp only [expected, Deliver.ceWrite, List.flatMap_append, List.map_map, Function.comp_def] at h1 ⊢
+  rw [h1, h2]
+  by_cases he : ((accepted c).flatMap sinksOf).filter (·.writeErr) = [] <;> cases after <;>
+    simp [he, readEv, evErrLine, evErrSync, evHook, evPut, nm_fprintf, nm_sync, nm_hook, nm_put]
+
+end ZapVerif.C10
+
+/-! ## `ioCore.Write`, `multiCore.Write/Sync`, `hooked.Write` ARE the source (table `Gen/TransCores.lean`)
+
+What a core's `Write` does with the entry, for every scripted outcome of the encoder, the sink, the sub-cores and the
+hook functions (the calls are recorded in `ev`):
+* `ioCore.Write`: encode; an encoder error is returned and nothing is written; otherwise ONE `out.Write` with the
+  encoded bytes; a write error is returned as it is and no Sync follows; otherwise `out.Sync` iff the level is above
+  Error, its error ignored, and `nil` is returned;
+* `multiCore.Write` / `multiCore.Sync`: every sub-core is called, in order, whatever the earlier ones returned, and
+  ALL errors are returned in order;
+* `hooked.Write`: every hook function is called with the entry, in order; all errors returned. -/
+namespace ZapVerif.C10
+set_option linter.unusedSimpArgs false
+open ZapVerif ZapVerif.GoMini ZapVerif.TransCores ZapVerif.Gen.TransCores
+
+def evEnc (enc ent fs : Val) : Val := .list [TransCores.nm "Encoder.EncodeEntry", enc, ent, fs]
+def evOutWrite (out : Val) (b : Bytes) : Val := .list [TransCores.nm "WriteSyncer.Write", out, .bytes b]
+def evOutSync (out : Val) : Val := .list [TransCores.nm "WriteSyncer.Sync", out]
+
+/-- `(*ioCore).Sync()` is `c.out.Sync()` -/
+theorem ioCore_Sync_matches_source (P : Par) (enc self : Val) (n : Int) (werrs serrs ev : List Val) (fuel : Nat) :
+    run (X P) (fuel + 1) "ioCore_Sync" [] (ioFld enc (sinkV n werrs serrs) self ev) =
+      .done [.list serrs] (ioFld enc (sinkV n werrs serrs) self (ev ++ [evOutSync (sinkV n werrs serrs)])) := by
+  refine run_of_fin (X P) _ _ Gen.TransCores.ioCore_Sync [] _ _ _ rfl rfl ?_
+  show (exec (X P) (fuel + 1) ioCore_Sync_body ⟨[], _⟩).fin = _
+  rw [exec_succ]
+  simp [ioCore_Sync_body, evOutSync, nm_wsync]
+
+/-- what `ioCore.Write` returns and records -/
+def ioWriteSpec (l : Int) (enc : Val) (out : Val) (b : Bytes) (eerrs werrs : List Val) (ent fs : Val) : List Val × List Val :=
+  if eerrs ≠ [] then (eerrs, [evEnc enc ent fs])
+  else if werrs ≠ [] then (werrs, [evEnc enc ent fs, evOutWrite out b])
+  else ([], [evEnc enc ent fs, evOutWrite out b] ++ (if l > 2 then [evOutSync out] else []))
+
+/-- `(*ioCore).Write(ent, fields)` for every outcome of the encoder and the sink -/
+theorem ioCore_Write_matches_source (P : Par) (l : Int) (fs self : Val) (b : Bytes) (eerrs : List Val)
+    (n : Int) (werrs serrs ev : List Val) (fuel : Nat) :
+    run (X P) (fuel + 2) "ioCore_Write" [entV l, fs] (ioFld (encV b eerrs) (sinkV n werrs serrs) self ev) =
+      .done [.list (ioWriteSpec l (encV b eerrs) (sinkV n werrs serrs) b eerrs werrs (entV l) fs).1]
+        (ioFld (encV b eerrs) (sinkV n werrs serrs) self
+          (ev ++ (ioWriteSpec l (encV b eerrs) (sinkV n werrs serrs) b eerrs werrs (entV l) fs).2)) := by
+  refine run_of_fin (X P) _ _ Gen.TransCores.ioCore_Write [entV l, fs] _ _ _ rfl rfl ?_
+  show (exec (X P) (fuel + 2) ioCore_Write_body ⟨[("p0", entV l), ("p1", fs)], _⟩).fin = _
+  rw [exec_succ]
+  have hsync : ∀ (σ : State) (ev' : List Val), retK σ [.blank] "ioCore_Sync"
+      (exec (X P) (fuel + 1) ioCore_Sync_body ⟨[], ioFld (encV b eerrs) (sinkV n werrs serrs) self ev'⟩) =
+      .normal { σ with fld := ioFld (encV b eerrs) (sinkV n werrs serrs) self (ev' ++ [evOutSync (sinkV n werrs serrs)]) } := by
+    intro σ ev'
+    have h : (exec (X P) (fuel + 1) ioCore_Sync_body ⟨[], ioFld (encV b eerrs) (sinkV n werrs serrs) self ev'⟩).fin =
+        some ([.list serrs], ioFld (encV b eerrs) (sinkV n werrs serrs) self (ev' ++ [evOutSync (sinkV n werrs serrs)])) := by
+      rw [exec_succ]; simp [ioCore_Sync_body, evOutSync, nm_wsync]
+    simpa [State.assign1] using retK_of_fin1 σ .blank "ioCore_Sync" _ _ _ h
+  have hpos : ∀ k : Nat, ¬ ((k : Int) + 1 = 0) := by intro k; omega
+  by_cases hl : l > 2 <;> cases eerrs <;> cases werrs <;>
+    simp [ioCore_Write_body, ioWriteSpec, entV, indexVal, hl, hsync, evEnc, evOutWrite, evOutSync, nm_enc, nm_wwrite, hpos,
+      List.append_assoc]
+
+
+/-- a sub-core of a tee, by (id, write errors, sync errors) -/
+def mcSub (c : Nat × List Val × List Val) : Val := subV c.1 c.2.1 c.2.2
+/-- a hook function, by (id, errors, unused) -/
+def hkFn (c : Nat × List Val × List Val) : Val := fnV c.1 c.2.1
+
+/-- loop variables of `multiCore.Write` after an iteration -/
+def mcwTail : Option (Int × List Val) → Env
+  | none => []
+  | some (i, e) => [("l1", .int i), ("l2", .list e)]
+
+def mcwAbs (mc : List Val) (ent fs : Val) (a : (List Val × List Val) × Option (Int × List Val)) : State :=
+  ⟨[("p0", ent), ("p1", fs), ("l0", .list a.1.1)] ++ mcwTail a.2, mcFld mc a.1.2⟩
+
+def mcwEv (ent fs : Val) (c : Val) : Val := .list ([TransCores.nm "Core.Write", c, ent, fs])
+
+def mcwStep (ent fs : Val) (a : (List Val × List Val) × Option (Int × List Val)) (i : Nat) (c : Nat × List Val × List Val) :
+    (List Val × List Val) × Option (Int × List Val) :=
+  ((a.1.1 ++ c.2.1, a.1.2 ++ [mcwEv ent fs (mcSub c)]), some ((i : Int), c.2.1))
+
+theorem mcwStep_fold (ent fs : Val) : ∀ (l : List ((Nat × List Val × List Val) × Nat))
+    (a : (List Val × List Val) × Option (Int × List Val)),
+    (l.foldl (fun a q => mcwStep ent fs a q.2 q.1) a).1 =
+      (a.1.1 ++ l.flatMap (fun q => q.1.2.1), a.1.2 ++ l.map (fun q => mcwEv ent fs (mcSub q.1)))
+  | [], a => by simp
+  | q :: l, a => by
+    simp only [List.foldl_cons]
+    rw [mcwStep_fold ent fs l]
+    simp [mcwStep, List.append_assoc]
+
+/-- the loop of `multiCore.Write`: every element is called, in order; the errors are only collected -/
+theorem multiCore_Write_loop_matches_source (P : Par) (cs : List (Nat × List Val × List Val)) (ent fs : Val) (ev : List Val)
+    (rec : Stmt → State → GoMini.Out) :
+    ∃ t, execS (X P) rec multiCore_Write_loop0 (mcwAbs (cs.map mcSub) ent fs (([], ev), none)) =
+      .normal (mcwAbs (cs.map mcSub) ent fs
+        ((cs.flatMap (fun c => c.2.1), ev ++ cs.map fun c => mcwEv ent fs (mcSub c)), t)) := by
+  have hiter : ∀ (a : (List Val × List Val) × Option (Int × List Val)) (i : Nat) (c : Nat × List Val × List Val),
+      cs[i]? = some c →
+      (match multiCore_Write_loop0 with
+        | .range k v _ body => execS (X P) rec body
+            (((mcwAbs (cs.map mcSub) ent fs a).assign1 k (.int i)).assign1 v (mcSub c))
+        | _ => .oof) = .normal (mcwAbs (cs.map mcSub) ent fs (mcwStep ent fs a i c)) := by
+    intro ⟨⟨acc, tr⟩, t⟩ i c hc
+    have hidx := indexVal_list_map mcSub cs i c hc
+    obtain ⟨id, we, se⟩ := c
+    simp only [mcSub] at hidx
+    cases t <;> simp [multiCore_Write_loop0, mcwAbs, mcwTail, mcwStep, hidx, mcwEv, mcSub, nm_cwrite, subV, fnV]
+  unfold multiCore_Write_loop0 at hiter ⊢
+  rw [execS_range]
+  have hfold := rangeRun_fold_at (execS (X P) rec _) _ _ (mcwAbs (cs.map mcSub) ent fs) mcSub
+    (mcwStep ent fs) cs hiter cs 0 (([], ev), none) (by simp)
+  refine ⟨((cs.zipIdx).foldl (fun a q => mcwStep ent fs a q.2 q.1) (([], ev), none)).2, ?_⟩
+  have hcs : evalE (X P) (mcwAbs (cs.map mcSub) ent fs (([], ev), none)) (.fld "mc") = .ok (.list (cs.map mcSub)) := by
+    simp [mcwAbs]
+  rw [hcs]
+  simp only [Res.out_ok]
+  refine Eq.trans hfold ?_
+  congr 2
+  refine Prod.ext ?_ rfl
+  rw [mcwStep_fold, zipIdx_flatMap_fst (fun c : Nat × List Val × List Val => c.2.1),
+    zipIdx_map_fst (fun c => mcwEv ent fs (mcSub c))]
+  simp
+
+/-- `multiCore.Write` for every number of elements and every outcome -/
+theorem multiCore_Write_matches_source (P : Par) (cs : List (Nat × List Val × List Val)) (ent fs : Val) (ev : List Val) (fuel : Nat) :
+    run (X P) (fuel + 1) "multiCore_Write" [ent, fs] (mcFld (cs.map mcSub) ev) =
+      .done [.list (cs.flatMap fun c => c.2.1)]
+        (mcFld (cs.map mcSub) (ev ++ cs.map fun c => mcwEv ent fs (mcSub c))) := by
+  refine run_of_fin (X P) _ _ Gen.TransCores.multiCore_Write [ent, fs] _ _ _ rfl rfl ?_
+  show (exec (X P) (fuel + 1) multiCore_Write_body ⟨[("p0", ent), ("p1", fs)], _⟩).fin = _
+  rw [exec_succ]
+  obtain ⟨t, hl⟩ := multiCore_Write_loop_matches_source P cs ent fs ev (exec (X P) fuel)
+  simp only [mcwAbs, mcwTail, List.append_nil] at hl
+  cases t <;> simp [multiCore_Write_body, hl, mcwTail]
+
+/-- loop variables of `multiCore.Sync` after an iteration -/
+def mcsTail : Option (Int × List Val) → Env
+  | none => []
+  | some (i, e) => [("l1", .int i), ("l2", .list e)]
+
+def mcsAbs (mc : List Val) (a : (List Val × List Val) × Option (Int × List Val)) : State :=
+  ⟨[("l0", .list a.1.1)] ++ mcsTail a.2, mcFld mc a.1.2⟩
+
+def mcsEv (_u : Unit) (c : Val) : Val := .list ([TransCores.nm "Core.Sync", c])
+
+def mcsStep (_u : Unit) (a : (List Val × List Val) × Option (Int × List Val)) (i : Nat) (c : Nat × List Val × List Val) :
+    (List Val × List Val) × Option (Int × List Val) :=
+  ((a.1.1 ++ c.2.2, a.1.2 ++ [mcsEv () (mcSub c)]), some ((i : Int), c.2.2))
+
+theorem mcsStep_fold (_u : Unit) : ∀ (l : List ((Nat × List Val × List Val) × Nat))
+    (a : (List Val × List Val) × Option (Int × List Val)),
+    (l.foldl (fun a q => mcsStep () a q.2 q.1) a).1 =
+      (a.1.1 ++ l.flatMap (fun q => q.1.2.2), a.1.2 ++ l.map (fun q => mcsEv () (mcSub q.1)))
+  | [], a => by simp
+  | q :: l, a => by
+    simp only [List.foldl_cons]
+    rw [mcsStep_fold () l]
+    simp [mcsStep, List.append_assoc]
+
+/-- the loop of `multiCore.Sync`: every element is called, in order; the errors are only collected -/
+theorem multiCore_Sync_loop_matches_source (P : Par) (cs : List (Nat × List Val × List Val)) (_u : Unit) (ev : List Val)
+    (rec : Stmt → State → GoMini.Out) :
+    ∃ t, execS (X P) rec multiCore_Sync_loop0 (mcsAbs (cs.map mcSub) (([], ev), none)) =
+      .normal (mcsAbs (cs.map mcSub)
+        ((cs.flatMap (fun c => c.2.2), ev ++ cs.map fun c => mcsEv () (mcSub c)), t)) := by
+  have hiter : ∀ (a : (List Val × List Val) × Option (Int × List Val)) (i : Nat) (c : Nat × List Val × List Val),
+      cs[i]? = some c →
+      (match multiCore_Sync_loop0 with
+        | .range k v _ body => execS (X P) rec body
+            (((mcsAbs (cs.map mcSub) a).assign1 k (.int i)).assign1 v (mcSub c))
+        | _ => .oof) = .normal (mcsAbs (cs.map mcSub) (mcsStep () a i c)) := by
+    intro ⟨⟨acc, tr⟩, t⟩ i c hc
+    have hidx := indexVal_list_map mcSub cs i c hc
+    obtain ⟨id, we, se⟩ := c
+    simp only [mcSub] at hidx
+    cases t <;> simp [multiCore_Sync_loop0, mcsAbs, mcsTail, mcsStep, hidx, mcsEv, mcSub, nm_csync, subV, fnV]
+  unfold multiCore_Sync_loop0 at hiter ⊢
+  rw [execS_range]
+  have hfold := rangeRun_fold_at (execS (X P) rec _) _ _ (mcsAbs (cs.map mcSub)) mcSub
+    (mcsStep ()) cs hiter cs 0 (([], ev), none) (by simp)
+  refine ⟨((cs.zipIdx).foldl (fun a q => mcsStep () a q.2 q.1) (([], ev), none)).2, ?_⟩
+  have hcs : evalE (X P) (mcsAbs (cs.map mcSub) (([], ev), none)) (.fld "mc") = .ok (.list (cs.map mcSub)) := by
+    simp [mcsAbs]
+  rw [hcs]
+  simp only [Res.out_ok]
+  refine Eq.trans hfold ?_
+  congr 2
+  refine Prod.ext ?_ rfl
+  rw [mcsStep_fold, zipIdx_flatMap_fst (fun c : Nat × List Val × List Val => c.2.2),
+    zipIdx_map_fst (fun c => mcsEv () (mcSub c))]
+  simp
+  all_goals exact ()
+
+/-- `multiCore.Sync` for every number of elements and every outcome -/
+theorem multiCore_Sync_matches_source (P : Par) (cs : List (Nat × List Val × List Val)) (_u : Unit) (ev : List Val) (fuel : Nat) :
+    run (X P) (fuel + 1) "multiCore_Sync" [] (mcFld (cs.map mcSub) ev) =
+      .done [.list (cs.flatMap fun c => c.2.2)]
+        (mcFld (cs.map mcSub) (ev ++ cs.map fun c => mcsEv () (mcSub c))) := by
+  refine run_of_fin (X P) _ _ Gen.TransCores.multiCore_Sync [] _ _ _ rfl rfl ?_
+  show (exec (X P) (fuel + 1) multiCore_Sync_body ⟨[], _⟩).fin = _
+  rw [exec_succ]
+  obtain ⟨t, hl⟩ := multiCore_Sync_loop_matches_source P cs () ev (exec (X P) fuel)
+  simp only [mcsAbs, mcsTail, List.append_nil] at hl
+  cases t <;> simp [multiCore_Sync_body, hl, mcsTail]
+
+/-- loop variables of `hooked.Write` after an iteration -/
+def hkwTail : Option (Int × List Val) → Env
+  | none => []
+  | some (i, e) => [("l1", .int i), ("l2", .list e)]
+
+def hkwAbs (core : Val) (funcs : List Val) (self ent fs : Val) (a : (List Val × List Val) × Option (Int × List Val)) : State :=
+  ⟨[("p0", ent), ("p1", fs), ("l0", .list a.1.1)] ++ hkwTail a.2, hkFld core funcs self a.1.2⟩
+
+def hkwEv (ent : Val) (c : Val) : Val := .list ([TransCores.nm "HookFn", c, ent])
+
+def hkwStep (ent : Val) (a : (List Val × List Val) × Option (Int × List Val)) (i : Nat) (c : Nat × List Val × List Val) :
+    (List Val × List Val) × Option (Int × List Val) :=
+  ((a.1.1 ++ c.2.1, a.1.2 ++ [hkwEv ent (hkFn c)]), some ((i : Int), c.2.1))
+
+theorem hkwStep_fold (ent : Val) : ∀ (l : List ((Nat × List Val × List Val) × Nat))
+    (a : (List Val × List Val) × Option (Int × List Val)),
+    (l.foldl (fun a q => hkwStep ent a q.2 q.1) a).1 =
+      (a.1.1 ++ l.flatMap (fun q => q.1.2.1), a.1.2 ++ l.map (fun q => hkwEv ent (hkFn q.1)))
+  | [], a => by simp
+  | q :: l, a => by
+    simp only [List.foldl_cons]
+    rw [hkwStep_fold ent l]
+    simp [hkwStep, List.append_assoc]
+
+/-- the loop of `hooked.Write`: every element is called, in order; the errors are only collected -/
+theorem hooked_Write_loop_matches_source (P : Par) (cs : List (Nat × List Val × List Val)) (core self ent fs : Val) (ev : List Val)
+    (rec : Stmt → State → GoMini.Out) :
+    ∃ t, execS (X P) rec hooked_Write_loop0 (hkwAbs core (cs.map hkFn) self ent fs (([], ev), none)) =
+      .normal (hkwAbs core (cs.map hkFn) self ent fs
+        ((cs.flatMap (fun c => c.2.1), ev ++ cs.map fun c => hkwEv ent (hkFn c)), t)) := by
+  have hiter : ∀ (a : (List Val × List Val) × Option (Int × List Val)) (i : Nat) (c : Nat × List Val × List Val),
+      cs[i]? = some c →
+      (match hooked_Write_loop0 with
+        | .range k v _ body => execS (X P) rec body
+            (((hkwAbs core (cs.map hkFn) self ent fs a).assign1 k (.int i)).assign1 v (hkFn c))
+        | _ => .oof) = .normal (hkwAbs core (cs.map hkFn) self ent fs (hkwStep ent a i c)) := by
+    intro ⟨⟨acc, tr⟩, t⟩ i c hc
+    have hidx := indexVal_list_map hkFn cs i c hc
+    obtain ⟨id, we, se⟩ := c
+    simp only [hkFn] at hidx
+    cases t <;> simp [hooked_Write_loop0, hkwAbs, hkwTail, hkwStep, hidx, hkwEv, hkFn, nm_fn, subV, fnV]
+  unfold hooked_Write_loop0 at hiter ⊢
+  rw [execS_range]
+  have hfold := rangeRun_fold_at (execS (X P) rec _) _ _ (hkwAbs core (cs.map hkFn) self ent fs) hkFn
+    (hkwStep ent) cs hiter cs 0 (([], ev), none) (by simp)
+  refine ⟨((cs.zipIdx).foldl (fun a q => hkwStep ent a q.2 q.1) (([], ev), none)).2, ?_⟩
+  have hcs : evalE (X P) (hkwAbs core (cs.map hkFn) self ent fs (([], ev), none)) (.fld "funcs") = .ok (.list (cs.map hkFn)) := by
+    simp [hkwAbs]
+  rw [hcs]
+  simp only [Res.out_ok]
+  refine Eq.trans hfold ?_
+  congr 2
+  refine Prod.ext ?_ rfl
+  rw [hkwStep_fold, zipIdx_flatMap_fst (fun c : Nat × List Val × List Val => c.2.1),
+    zipIdx_map_fst (fun c => hkwEv ent (hkFn c))]
+  simp
+
+/-- `hooked.Write` for every number of elements and every outcome -/
+theorem hooked_Write_matches_source (P : Par) (cs : List (Nat × List Val × List Val)) (core self ent fs : Val) (ev : List Val) (fuel : Nat) :
+    run (X P) (fuel + 1) "hooked_Write" [ent, fs] (hkFld core (cs.map hkFn) self ev) =
+      .done [.list (cs.flatMap fun c => c.2.1)]
+        (hkFld core (cs.map hkFn) self (ev ++ cs.map fun c => hkwEv ent (hkFn c))) := by
+  refine run_of_fin (X P) _ _ Gen.TransCores.hooked_Write [ent, fs] _ _ _ rfl rfl ?_
+  show (exec (X P) (fuel + 1) hooked_Write_body ⟨[("p0", ent), ("p1", fs)], _⟩).fin = _
+  rw [exec_succ]
+  obtain ⟨t, hl⟩ := hooked_Write_loop_matches_source P cs core self ent fs ev (exec (X P) fuel)
+  simp only [hkwAbs, hkwTail, List.append_nil] at hl
+  cases t <;> simp [hooked_Write_body, hl, hkwTail]
 
 end ZapVerif.C10
